@@ -278,7 +278,7 @@ def run(ctx):
         r.idiom("R11.3", len(keys) == 2 and shape_ok and local_ok and any(norm(k.elts[0]) == "None" for k in keys),
                 "%s::attribute-keys" % rel, f.where,
                 "%s does not key attributes by (namespace|None, local name) pairs: %s" % (qual, [norm(k) for k in keys]),
-                wrong=[(bool(keys) and not shape_ok, None), (shape_ok and not local_ok, None),
+                wrong=[(bool(keys) and all(isinstance(k, ast.Tuple) for k in keys) and not shape_ok, None), (shape_ok and not local_ok, None),
                        (shape_ok and any("None" in norm(k.elts[0]) and norm(k.elts[1]).endswith(".localName") for k in keys),
                         "%s keys an attribute without namespace by its *local* name: an un-namespaced attribute whose name contains a "
                         "colon (xml:lang on an HTML element, v-bind:title) is reported as (None, 'lang') / (None, 'title'); the stream no "
